@@ -228,7 +228,7 @@ pub open spec fn plan_ok(ctg: Seq<PlanCommandTargetGroup>, n: int, commands: Seq
         && groups_ok(ctg[i].target_groups@, tgs, tgs.len() as int, commands[i]@, targets, dag, work_path, a)
 }
 
-//!fn src/app/run.rs get_plan rules=R1,R3,R12 props=C05,C04,C11
+//!fn src/app/run.rs get_plan rules=R1,R3,R12 props=C05,C04,C11,C06
 fn get_plan<'a>(
     index: &core::Index<'_>,
     commands: &'a [&'a String],
@@ -244,7 +244,7 @@ fn get_plan<'a>(
 @        // directory, the executable resolved from the target's command definition (configured path, else by stem in the target's
 @        // command directory), and the arguments the merged argmap holds for (target, command)
 @        res matches Ok(p) ==> p.command_target_groups@.len() == commands@.len()
-@            && plan_ok(p.command_target_groups@, commands@.len() as int, commands@, target_groups@, targets@, index.dag, work_path@, *argmap), // [C05,C04,C11]
+@            && plan_ok(p.command_target_groups@, commands@.len() as int, commands@, target_groups@, targets@, index.dag, work_path@, *argmap), // [C05,C04,C11,C06]
 {
     let mut out = Out::new(run_path);
 
